@@ -75,6 +75,7 @@ class TV(AVal):
     rng: bool = False
     layout: tuple = ()  # per-axis layout tokens (pipeline domain)
     note: str = ""
+    rowspan: object = None  # instance runs: which rows [lo, hi) of the full stack of cotangents this value carries, in order; "?" = lost
 
     def but(self, **kw) -> "TV":
         return replace(self, **kw)
@@ -380,6 +381,7 @@ def join(a: AVal, b: AVal) -> AVal:
             alias=a.alias or b.alias, origin=a.origin | b.origin, poly=a.poly if a.poly == b.poly else None,
             idx_of=a.idx_of if a.idx_of == b.idx_of else None, size_of=a.size_of if a.size_of == b.size_of else None,
             gen=a.gen | b.gen, rng=a.rng or b.rng, layout=a.layout if a.layout == b.layout else (), note=a.note,
+            rowspan=a.rowspan if (b.rowspan is None or a.rowspan == b.rowspan) else (b.rowspan if a.rowspan is None else "?"),
         )
     if isinstance(a, ObjV) and isinstance(b, ObjV):
         return join_objects(a, b)
